@@ -57,6 +57,13 @@ def main():
     tier, seed, replay = E.tier_seed()
     V = E.Verdict(PID, tier, seed)
     rng = random.Random(seed * 141650939 + 5)
+    import atexit
+    import json as _json
+    os.makedirs(E.WORK_ROOT, exist_ok=True)
+    refjson = os.path.join(E.WORK_ROOT, f'c05_reference_{os.getpid()}.json')
+    with open(refjson, 'w') as f_:
+        _json.dump({'desc': {'features': [], 'fields': []}}, f_)
+    atexit.register(lambda: os.path.exists(refjson) and os.unlink(refjson))
     V.coverage['rule'] = ('TLC: Scoring.tla enumerates every frame (label + 2 feature columns x 4 rows; thorough adds 5 rows / 3 features) and computes for every column pair the '
                           'acceptable results of each scorer kind (exact log-vectors for the MI family with the label on the conditioning side, exact rationals for coverage, '
                           'tags for Pearson/AMI); DocumentedNotConstant on the dispatch table with the names extracted from the repository documentation at check time.  Each '
@@ -112,8 +119,11 @@ def main():
                 frame[fn] = [vm[v] for v in cols[i + 1]]
             for hn in per_frame:
                 mode = 'False' if (k % 5) else 'True'
+                extra_a = {}
+                if hn.startswith('MI') and (k + len(hn)) % 7 == 0:
+                    extra_a = {'reference_model_JSON': refjson}      # a reference model (no combined features): the scores of the batch's own columns are unchanged
                 jobs.append({'op': 'rank_graph', 'columns': order, 'frame': frame, 'batches': 1, 'libscores': dispatch[hn] in ('pearson', 'ami'),
-                             'args': {'heuristic': hn, 'label_column': 'label', 'target_ranking_only': mode, 'combination_number_upper_bound': 10 ** 6}})
+                             'args': dict({'heuristic': hn, 'label_column': 'label', 'target_ranking_only': mode, 'combination_number_upper_bound': 10 ** 6}, **extra_a)})
                 meta.append((k, hn))
         got = PC.pipe_eval(jobs, modules=['pipe_ops'])
         nontriv = 0
